@@ -4,6 +4,7 @@ import (
 	"fmt"
 	"math/rand"
 	"sync"
+	"sync/atomic"
 
 	"github.com/jamf/regatta/storage/cluster"
 	"github.com/lni/dragonboat/v4"
@@ -480,6 +481,10 @@ func (c *l1case) deliverGossip(kind string, k int, script []gstep) {
 
 const exhaustiveUpTo = 6
 
+var l1Samples, smallSamples atomic.Int64
+
+func sampleSlot(c *atomic.Int64, max int64) bool { return c.Add(1) <= max }
+
 func pickSize(rg *rand.Rand) int {
 	switch x := rg.Intn(100); {
 	case x < 4:
@@ -542,7 +547,7 @@ func runRandomCase(r *ev.Run, seed int64) bool {
 	if nontrivial(ms.U) {
 		r.Nontrivial(multisetKey(ms.U))
 	}
-	if len(ms.Shards) > 1 || n > 3 {
+	if nontrivial(ms.U) && sampleSlot(&l1Samples, 3) {
 		r.Sample(map[string]any{"layer": 1, "family": "random", "case_seed": seed, "multiset": fmtUpds(ms.U), "deliveries": c.deliveries,
 			"every_permutation": exhaustive, "final_view": c.canon, "nontrivial": nontrivial(ms.U)})
 	}
@@ -617,6 +622,9 @@ func runSmallScope(r *ev.Run, L int, first int) {
 			if nontrivial(us) {
 				nt++
 				r.Nontrivial(multisetKey(us))
+				if len(seq) == L && sampleSlot(&smallSamples, 1) {
+					r.Sample(map[string]any{"layer": 1, "family": "small-scope", "sequence": fmtUpds(us), "final_view": fmtSV(7, joinSorted(us)[7])})
+				}
 			}
 		}
 		if len(seq) == L {
